@@ -65,8 +65,11 @@ core/trie2 (`blockchain.WithNewState`). The read path differs in one place, see 
 inductive Backend | legacy | new
 deriving Repr, DecidableEq, Inhabited
 
-/-- Block identifiers. `pre` is the tag `pre_confirmed` (v9/v10); the node under consideration
-has no pre-confirmed data (`sync.NoopSynchronizer`). v8 has no `l1_accepted` tag. -/
+/-- Block identifiers as the handlers see them (after `BlockID.UnmarshalJSON`, see `decodeId`).
+`pre` is the tag of the block under construction: `pre_confirmed` in v9/v10 — the node under
+consideration has no pre-confirmed data (`sync.NoopSynchronizer`) — and `pending` in v8, which
+rpc/v8 serves as a synthetic empty block on top of the head (`Handler.Pending`). v8 has no
+`l1_accepted` tag. -/
 inductive BlockId
   | number (n : Nat)
   | hash (h : Nat)
@@ -117,30 +120,10 @@ inductive Ans
   | receipt (t : Tx) (fin : Fin) (blockNumber blockHash : Nat)
   | status (fin : Fin) (reverted : Bool)
   | update (blockHash newRoot oldRoot : Nat) (d : Diff)
+  | valueAt (v lastUpdate : Nat)               -- v10 getStorageAt with INCLUDE_LAST_UPDATE_BLOCK
+  | pendingBlock (parent : Nat)                 -- v8 `pending`: no hash, no number, no transactions
+  | pendingUpdate (oldRoot : Nat) (d : Diff)    -- v8 `pending` state update: no block hash / new root
 deriving Repr, DecidableEq, Inhabited
-
-/-! ## Writers (`Store` as far as `verifyBlockSuccession` goes, `RevertHead`, `SetL1Head`) -/
-
-/-- `headNumberAndHash`. -/
-def headNumberAndHash (nd : Node) : Option (Nat × Nat) :=
-  match nd.chain.getLast? with
-  | none => none
-  | some b => some (b.number, b.hash)
-
-/-- `verifyBlockSuccession`: number and parent hash must extend the head (or be 0 / 0x0). -/
-def succeeds (nd : Node) (b : Block) : Bool :=
-  match headNumberAndHash nd with
-  | some (n, h) => b.number == n + 1 && b.parent == h
-  | none => b.number == 0 && b.parent == 0
-
-def store (nd : Node) (b : Block) : Option Node :=
-  if succeeds nd b then some { nd with chain := nd.chain ++ [b] } else none
-
-def revert (nd : Node) : Option Node :=
-  if nd.chain.isEmpty then none else some { nd with chain := nd.chain.dropLast }
-
-/-- `SetL1Head` (the revert path never touches the recorded L1 head). -/
-def setL1 (nd : Node) (l : Option Nat) : Node := { nd with l1 := l }
 
 /-! ## `blockchain.Reader` -/
 
@@ -230,6 +213,60 @@ def storageIn (bs : List Block) (a k : Nat) : Nat :=
 
 def declaredIn (bs : List Block) (c : Nat) : Bool := bs.any (fun b => b.diff.declared.contains c)
 
+/-- `ContractStorageLastUpdatedBlock` on the legacy backend: the newest block among `bs` for which
+a history entry of the slot was logged. `deprecatedstate` logs an entry for every write of a state
+diff except a write of zero to a slot that holds zero (`trie.Put` reports no old value then);
+0 when there is none. -/
+def lastLoggedRev : List Block → Nat → Nat → Nat   -- newest block first
+  | [], _, _ => 0
+  | b :: older, a, k =>
+    match lookup3 b.diff.storage a k with
+    | some v => if v == 0 && storageIn older.reverse a k == 0 then lastLoggedRev older a k else b.number
+    | none => lastLoggedRev older a k
+
+def lastLoggedIn (bs : List Block) (a k : Nat) : Nat := lastLoggedRev bs.reverse a k
+
+/-- The new backend logs a history entry for every write of a state diff, also a zero written
+to an unset slot: there the answer is the newest block whose diff TOUCHED the slot. -/
+def lastTouchedIn (bs : List Block) (a k : Nat) : Nat :=
+  match bs.reverse.find? (fun b => (lookup3 b.diff.storage a k).isSome) with
+  | some b => b.number
+  | none => 0
+
+def lastUpdateIn (be : Backend) (bs : List Block) (a k : Nat) : Nat :=
+  match be with
+  | .legacy => lastLoggedIn bs a k
+  | .new => lastTouchedIn bs a k
+
+/-! ## Writers (`Store` as far as `verifyBlockSuccession` goes, `RevertHead`, `SetL1Head`) -/
+
+/-- `headNumberAndHash`. -/
+def headNumberAndHash (nd : Node) : Option (Nat × Nat) :=
+  match nd.chain.getLast? with
+  | none => none
+  | some b => some (b.number, b.hash)
+
+/-- `verifyBlockSuccession`: number and parent hash must extend the head (or be 0 / 0x0). -/
+def succeeds (nd : Node) (b : Block) : Bool :=
+  match headNumberAndHash nd with
+  | some (n, h) => b.number == n + 1 && b.parent == h
+  | none => b.number == 0 && b.parent == 0
+
+/-- State update as far as it can fail on a well-linked block: a storage diff may only address a
+contract that is deployed by then (by an earlier block or by this very diff) or a system
+contract (`NewContractUpdater` / `getStateObject` fail with "contract not deployed" otherwise). -/
+def storageOk (nd : Node) (b : Block) : Bool :=
+  b.diff.storage.all (fun e => isSystemContract e.1 || deployedIn (nd.chain ++ [b]) e.1)
+
+def store (nd : Node) (b : Block) : Option Node :=
+  if succeeds nd b && storageOk nd b then some { nd with chain := nd.chain ++ [b] } else none
+
+def revert (nd : Node) : Option Node :=
+  if nd.chain.isEmpty then none else some { nd with chain := nd.chain.dropLast }
+
+/-- `SetL1Head` (the revert path never touches the recorded L1 head). -/
+def setL1 (nd : Node) (l : Option Nat) : Node := { nd with l1 := l }
+
 /-- Head readers answer zero for a missing contract's storage; history readers answer
 `ErrKeyNotFound` when the value is zero and the contract is not deployed at that block. -/
 inductive SKind | head | history
@@ -301,11 +338,37 @@ def blockById (ver : Ver) (nd : Node) : BlockId → Except Err Block
       match (l1AcceptedNumber nd).bind (blockByNumber nd) with
       | some b => .ok b
       | none => .error .blockNotFound
-  | .pre => .error .blockNotFound   -- v8 `pending` is not modelled for the block methods
+  | .pre => .error .blockNotFound   -- v9 / v10: no pre-confirmed data; v8 `pending`: see `pendingOf`
 
 def hdrOf (nd : Node) (b : Block) : Hdr :=
   { number := b.number, hash := b.hash, parent := b.parent, root := b.root,
     status := finality b.number nd.l1 }
+
+/-! ## v8 `pending` (rpc/v8/pending_wrapper.go, sync.MakeEmptyPendingForParent) -/
+
+/-- `core.BlockHashLag`. -/
+def blockHashLag : Nat := 10
+
+structure Pending where
+  parent : Nat
+  oldRoot : Nat
+  diff : Diff
+deriving Repr, DecidableEq, Inhabited
+
+/-- `Handler.Pending`: an empty block on top of the head; its state diff writes the hash of block
+`n - 10` into the block-hash contract 0x1 once `n ≥ 10` (`makeStateDiffForEmptyBlock`). Any
+failure (no head, missing older header) is an error of the whole call. -/
+def pendingOf (nd : Node) : Option Pending :=
+  match headBlock nd with
+  | none => none
+  | some h =>
+    let n := h.number + 1
+    if n < blockHashLag then some ⟨h.hash, h.root, {}⟩
+    else match blockByNumber nd (n - blockHashLag) with
+      | some b => some ⟨h.hash, h.root, { storage := [(1, n - blockHashLag, b.hash)] }⟩
+      | none => none
+
+def isV8Pending (ver : Ver) (id : BlockId) : Bool := ver == .v8 && id == .pre
 
 /-! ## Handlers -/
 
@@ -318,7 +381,7 @@ def blockHashAndNumber (nd : Node) : Ans :=
   match headBlock nd with | some b => .hashNum b.hash b.number | none => .err .noBlocks
 
 /-- `BlockWithTxHashes`: header by id, then the hashes by `header.Number`. -/
-def blockWithTxHashes (ver : Ver) (nd : Node) (id : BlockId) : Ans :=
+def blockWithTxHashesStored (ver : Ver) (nd : Node) (id : BlockId) : Ans :=
   match blockById ver nd id with
   | .error e => .err e
   | .ok b =>
@@ -326,8 +389,12 @@ def blockWithTxHashes (ver : Ver) (nd : Node) (id : BlockId) : Ans :=
     | none => .err .blockNotFound
     | some hs => .blockHashes (hdrOf nd b) hs
 
+def blockWithTxHashes (ver : Ver) (nd : Node) (id : BlockId) : Ans :=
+  if isV8Pending ver id then (match pendingOf nd with | some p => .pendingBlock p.parent | none => .err .blockNotFound)
+  else blockWithTxHashesStored ver nd id
+
 /-- `BlockWithTxs`: header by id, then the transactions by `header.Number`. -/
-def blockWithTxs (ver : Ver) (nd : Node) (id : BlockId) : Ans :=
+def blockWithTxsStored (ver : Ver) (nd : Node) (id : BlockId) : Ans :=
   match blockById ver nd id with
   | .error e => .err e
   | .ok b =>
@@ -335,15 +402,23 @@ def blockWithTxs (ver : Ver) (nd : Node) (id : BlockId) : Ans :=
     | none => .err .blockNotFound
     | some ts => .blockTxs (hdrOf nd b) ts
 
+def blockWithTxs (ver : Ver) (nd : Node) (id : BlockId) : Ans :=
+  if isV8Pending ver id then (match pendingOf nd with | some p => .pendingBlock p.parent | none => .err .blockNotFound)
+  else blockWithTxsStored ver nd id
+
 /-- `BlockWithReceipts`: the whole block by id; every receipt carries the block's finality. -/
-def blockWithReceipts (ver : Ver) (nd : Node) (id : BlockId) : Ans :=
+def blockWithReceiptsStored (ver : Ver) (nd : Node) (id : BlockId) : Ans :=
   match blockById ver nd id with
   | .error e => .err e
   | .ok b => .blockReceipts (hdrOf nd b) (b.txs.map (fun t => (t, finality b.number nd.l1)))
 
+def blockWithReceipts (ver : Ver) (nd : Node) (id : BlockId) : Ans :=
+  if isV8Pending ver id then (match pendingOf nd with | some p => .pendingBlock p.parent | none => .err .blockNotFound)
+  else blockWithReceiptsStored ver nd id
+
 /-- `BlockTransactionCount`. v8 reads `header.TransactionCount`; v9/v10 resolve the id to a
 number first and read the count by number. -/
-def blockTransactionCount (ver : Ver) (nd : Node) (id : BlockId) : Ans :=
+def blockTransactionCountStored (ver : Ver) (nd : Node) (id : BlockId) : Ans :=
   match ver with
   | .v8 =>
     match blockById ver nd id with
@@ -361,13 +436,17 @@ def blockTransactionCount (ver : Ver) (nd : Node) (id : BlockId) : Ans :=
     | .error e => .err e
     | .ok n => match txCountByNumber nd n with | some c => .num c | none => .err .blockNotFound
 
+def blockTransactionCount (ver : Ver) (nd : Node) (id : BlockId) : Ans :=
+  if isV8Pending ver id then (match pendingOf nd with | some _ => .num 0 | none => .err .blockNotFound)
+  else blockTransactionCountStored ver nd id
+
 /-- `TransactionByHash`. -/
 def transactionByHash (nd : Node) (h : Nat) : Ans :=
   match txByHash nd h with | some t => .tx t | none => .err .txnHashNotFound
 
 /-- `TransactionByBlockIDAndIndex` (index already known to be non-negative). For a `number` id
 the block number is used as given: a missing block surfaces as INVALID_TXN_INDEX. -/
-def transactionByBlockIdAndIndex (ver : Ver) (nd : Node) (id : BlockId) (i : Nat) : Ans :=
+def transactionByBlockIdAndIndexStored (ver : Ver) (nd : Node) (id : BlockId) (i : Nat) : Ans :=
   let n? : Except Err Nat :=
     match id with
     | .latest => match headBlock nd with | some b => .ok b.number | none => .error .blockNotFound
@@ -381,6 +460,10 @@ def transactionByBlockIdAndIndex (ver : Ver) (nd : Node) (id : BlockId) (i : Nat
   match n? with
   | .error e => .err e
   | .ok n => match txByNumberAndIndex nd n i with | some t => .tx t | none => .err .invalidTxIndex
+
+def transactionByBlockIdAndIndex (ver : Ver) (nd : Node) (id : BlockId) (i : Nat) : Ans :=
+  if isV8Pending ver id then (match pendingOf nd with | some _ => .err .invalidTxIndex | none => .err .blockNotFound)
+  else transactionByBlockIdAndIndexStored ver nd id i
 
 /-- `TransactionReceiptByHash`. -/
 def transactionReceipt (nd : Node) (h : Nat) : Ans :=
@@ -414,7 +497,7 @@ def filterDiff (ver : Ver) (filter : List Nat) (d : Diff) : Diff :=
   | _ => d
 
 /-- `stateUpdateByID` + `StateUpdate`: the stored update of the resolved block. -/
-def stateUpdate (ver : Ver) (nd : Node) (id : BlockId) (filter : List Nat := []) : Ans :=
+def stateUpdateStored (ver : Ver) (nd : Node) (id : BlockId) (filter : List Nat) : Ans :=
   let b? : Except Err Block :=
     match id with
     | .latest => match (height nd).bind (blockByNumber nd) with | some b => .ok b | none => .error .blockNotFound
@@ -428,6 +511,10 @@ def stateUpdate (ver : Ver) (nd : Node) (id : BlockId) (filter : List Nat := [])
   match b? with
   | .error e => .err e
   | .ok b => .update b.hash b.root b.oldRoot (filterDiff ver filter b.diff)
+
+def stateUpdate (ver : Ver) (nd : Node) (id : BlockId) (filter : List Nat := []) : Ans :=
+  if isV8Pending ver id then (match pendingOf nd with | some p => .pendingUpdate p.oldRoot p.diff | none => .err .blockNotFound)
+  else stateUpdateStored ver nd id filter
 
 /-- `Nonce`. -/
 def nonce (be : Backend) (ver : Ver) (nd : Node) (id : BlockId) (a : Nat) : Ans :=
@@ -478,6 +565,98 @@ def storageAt (be : Backend) (ver : Ver) (nd : Node) (id : BlockId) (a k : Nat) 
         if v == 0 && id == .latest then (if dep then .num 0 else .err .contractNotFound)
         else .num v
     | _ => if dep then .num v else .err .contractNotFound
+
+/-- v10 `StorageAt` with the response flag INCLUDE_LAST_UPDATE_BLOCK: the plain answer plus
+`ContractStorageLastUpdatedBlock` of the same reader. -/
+def storageAtWithLastUpdate (be : Backend) (nd : Node) (id : BlockId) (a k : Nat) : Ans :=
+  match storageAt be .v10 nd id a k with
+  | .num v =>
+    match stateById be .v10 nd id with
+    | .ok st =>
+      .valueAt v (lastUpdateIn be st.blocks a k)
+    | .error e => .err e
+  | r => r
+
+/-! ## The wire layer: block-id decoding and dispatch -/
+
+/-- A block id as it arrives (already JSON-decoded): a string, an object with optional
+`block_hash` / `block_number` members of the right type, or anything else (a number, an array,
+an object whose member has the wrong type, …). -/
+inductive RawId
+  | tag (s : String)
+  | obj (hash : Option Nat) (number : Option Nat)
+  | other
+deriving Repr, DecidableEq, Inhabited
+
+/-- `BlockID.UnmarshalJSON` of the three packages. A string must be a tag the version knows; in
+an object `block_hash` wins over `block_number`; everything else is a decoding error, which
+`jsonrpc.Server.buildArguments` turns into "invalid params". -/
+def decodeId (ver : Ver) : RawId → Except Err BlockId
+  | .tag s =>
+    if s == "latest" then .ok .latest
+    else match ver with
+      | .v8 => if s == "pending" then .ok .pre else .error .invalidParams
+      | _ =>
+        if s == "pre_confirmed" then .ok .pre
+        else if s == "l1_accepted" then .ok .l1Accepted
+        else .error .invalidParams
+  | .obj (some h) _ => .ok (.hash h)
+  | .obj none (some n) => .ok (.number n)
+  | .obj none none => .error .invalidParams
+  | .other => .error .invalidParams
+
+/-- A read request as it arrives. -/
+inductive Request
+  | blockNumber
+  | blockHashAndNumber
+  | blockWithTxHashes (id : RawId)
+  | blockWithTxs (id : RawId)
+  | blockWithReceipts (id : RawId)
+  | blockTransactionCount (id : RawId)
+  | stateUpdate (id : RawId) (filter : List Nat)
+  | transactionByHash (h : Nat)
+  | transactionReceipt (h : Nat)
+  | transactionStatus (h : Nat)
+  | transactionByBlockIdAndIndex (id : RawId) (i : Int)
+  | storageAt (a k : Nat) (id : RawId)
+  | storageAtWithLastUpdate (a k : Nat) (id : RawId)   -- v10 only (v8 / v9: too many params)
+  | nonce (id : RawId) (a : Nat)
+  | classHashAt (id : RawId) (a : Nat)
+  | classByHash (id : RawId) (c : Nat)
+  | classAt (id : RawId) (a : Nat)
+deriving Repr, DecidableEq, Inhabited
+
+def withId (ver : Ver) (raw : RawId) (k : BlockId → Ans) : Ans :=
+  match decodeId ver raw with
+  | .ok id => k id
+  | .error e => .err e
+
+/-- The whole read path of one API version on one backend: decode, dispatch, handle. A negative
+transaction index is refused by the handler before the block id is looked at (but after it was
+decoded). -/
+def serve (be : Backend) (ver : Ver) (nd : Node) : Request → Ans
+  | .blockNumber => blockNumber nd
+  | .blockHashAndNumber => blockHashAndNumber nd
+  | .blockWithTxHashes raw => withId ver raw (blockWithTxHashes ver nd)
+  | .blockWithTxs raw => withId ver raw (blockWithTxs ver nd)
+  | .blockWithReceipts raw => withId ver raw (blockWithReceipts ver nd)
+  | .blockTransactionCount raw => withId ver raw (blockTransactionCount ver nd)
+  | .stateUpdate raw f => withId ver raw (fun id => stateUpdate ver nd id f)
+  | .transactionByHash h => transactionByHash nd h
+  | .transactionReceipt h => transactionReceipt nd h
+  | .transactionStatus h => transactionStatus nd h
+  | .transactionByBlockIdAndIndex raw i =>
+    withId ver raw (fun id =>
+      if i < 0 then .err .invalidTxIndex else transactionByBlockIdAndIndex ver nd id i.toNat)
+  | .storageAt a k raw => withId ver raw (fun id => storageAt be ver nd id a k)
+  | .storageAtWithLastUpdate a k raw =>
+    match ver with
+    | .v10 => withId ver raw (fun id => storageAtWithLastUpdate be nd id a k)
+    | _ => .err .invalidParams
+  | .nonce raw a => withId ver raw (fun id => nonce be ver nd id a)
+  | .classHashAt raw a => withId ver raw (fun id => classHashAt be ver nd id a)
+  | .classByHash raw c => withId ver raw (fun id => classByHash be ver nd id c)
+  | .classAt raw a => withId ver raw (fun id => classAt be ver nd id a)
 
 /-! ## Specification side (not used by the handlers): what an identifier denotes -/
 
